@@ -14,6 +14,16 @@
 //!                     `2 samples...` (bin+2 frames of the yielded Windowed, flattened) | `3` (None)
 //!   after the first None: size_hint and next once more.   `8 code` = panic.
 //! Input line (window functions): `H <np> p... <nq> q...` (p: f32 bits, q: i16 values), see run_h.
+//! Input line (provided Iterator methods): `I <wk> <fk> <nch> <bin> <hop> <np> <L> d... ; op , op , ...`
+//!   bin >= 1, hop >= 1.  Observations: 100 / 101 as above with np phases / values, then per op its result
+//!   followed by the windower's size_hint.  Ops on the (persistent) Windower `wr`:
+//!     next | nth k (by reference) | skip k (clone().skip(k).next()) | last (clone) | lastref (by_ref().last())
+//!     | count (clone) | countref (by_ref().count()) | fold (clone, counting) | stepby k t (clone().step_by(k).take(t))
+//!     | collect (clone().collect::<Vec<_>>())
+//!   chunk results: `2 samples...` (bin+1 frames of the Windowed) | `3`; counts `4 n`; lists `5 n` then n chunks.
+//!   Ops on the persistent Window::<f64,W>::new(bin) `win`: wnth k (by reference) | wskip k | wtakelast n | wstepby k t
+//!     results `6 bits` | `3` | `7 bits...`.
+//!   Ops on the Windowed of wr.clone().next(): cnth k (nth(k) then next(): two frames) | cskip k | ctakelast n.
 use dasp_frame::Frame;
 use dasp_sample::Sample;
 use dasp_signal::window::{self, Window, Windower};
@@ -187,6 +197,117 @@ where
     out
 }
 
+fn run_i<F, W>(bin: usize, hop: usize, np: usize, data: &[i128], ops: &[Vec<&str>]) -> Vec<String>
+where
+    F: Frame,
+    F::Sample: Sx,
+    <F::Float as Frame>::Sample: Sx,
+    W: Wk + Clone,
+{
+    let mut out = Vec::new();
+    let mut pw = Window::<f64, W>::new(bin);
+    let phases: Vec<f64> = (0..np).map(|_| pw.phase.next_phase()).collect();
+    out.push(ob(100, &phases.iter().map(|p| b64(*p)).collect::<Vec<_>>()));
+    out.push(ob(101, &W::win64(bin).take(np).map(b64).collect::<Vec<_>>()));
+    let frames: Vec<F> = dec_frames(data);
+    let mut wr = W::mk(&frames[..], bin, hop);
+    let mut win = W::win64(bin);
+    let m = bin + 1;
+    fn frames_of<F: Frame>(fs: Vec<F>) -> String
+    where
+        F::Sample: Sx,
+    {
+        let mut v = Vec::new();
+        for f in fs {
+            enc_frame(f, &mut v);
+        }
+        ob(2, &v)
+    }
+    for op in ops {
+        let a: Vec<usize> = op[1..].iter().map(|t| t.parse().unwrap()).collect();
+        let r: Result<Vec<String>, i64> = catch(|| {
+            let chunk = |c: Option<window::Windowed<_, W>>| -> String {
+                match c {
+                    Some(c) => frames_of(c.take(m).collect::<Vec<F>>()),
+                    None => "3".to_string(),
+                }
+            };
+            let val = |v: Option<f64>| match v {
+                Some(v) => ob(6, &[b64(v)]),
+                None => "3".to_string(),
+            };
+            match op[0] {
+                "next" => vec![chunk(wr.next())],
+                "nth" => vec![chunk(wr.nth(a[0]))],
+                "skip" => vec![chunk(wr.clone().skip(a[0]).next())],
+                "last" => vec![chunk(wr.clone().last())],
+                "lastref" => vec![chunk(wr.by_ref().last())],
+                "count" => vec![ob(4, &[wr.clone().count() as i128])],
+                "countref" => vec![ob(4, &[wr.by_ref().count() as i128])],
+                "fold" => vec![ob(4, &[wr.clone().fold(0i128, |n, _| n + 1)])],
+                "stepby" | "collect" => {
+                    let cs: Vec<_> = if op[0] == "collect" {
+                        wr.clone().collect()
+                    } else {
+                        wr.clone().step_by(a[0]).take(a[1]).collect()
+                    };
+                    let mut v = vec![ob(5, &[cs.len() as i128])];
+                    for c in cs {
+                        v.push(chunk(Some(c)));
+                    }
+                    v
+                }
+                "wnth" => vec![val(win.nth(a[0]))],
+                "wskip" => vec![val(win.clone().skip(a[0]).next())],
+                "wtakelast" => vec![val(win.clone().take(a[0]).last())],
+                "wstepby" => vec![ob(7, &win.clone().step_by(a[0]).take(a[1]).map(b64).collect::<Vec<_>>())],
+                "cnth" => vec![match wr.clone().next() {
+                    None => "3".to_string(),
+                    Some(mut c) => {
+                        let x = c.nth(a[0]).unwrap();
+                        let y = c.next().unwrap();
+                        frames_of(vec![x, y])
+                    }
+                }],
+                "cskip" => vec![match wr.clone().next() {
+                    None => "3".to_string(),
+                    Some(c) => frames_of(vec![c.skip(a[0]).next().unwrap()]),
+                }],
+                "ctakelast" => vec![match wr.clone().next() {
+                    None => "3".to_string(),
+                    Some(c) => match c.take(a[0]).last() {
+                        Some(f) => frames_of(vec![f]),
+                        None => "3".to_string(),
+                    },
+                }],
+                _ => panic!("op"),
+            }
+        });
+        match r {
+            Ok(v) => out.extend(v),
+            Err(c) => out.push(ob(8, &[c as i128])),
+        }
+        out.push(match catch(|| wr.size_hint()) {
+            Ok(h) => hint(h),
+            Err(c) => ob(8, &[c as i128]),
+        });
+    }
+    out
+}
+
+fn dispatch_i<F>(wk: i128, bin: usize, hop: usize, np: usize, data: &[i128], ops: &[Vec<&str>]) -> Vec<String>
+where
+    F: Frame,
+    F::Sample: Sx,
+    <F::Float as Frame>::Sample: Sx,
+{
+    if wk == 0 {
+        run_i::<F, Hann>(bin, hop, np, data, ops)
+    } else {
+        run_i::<F, Rectangle>(bin, hop, np, data, ops)
+    }
+}
+
 fn run_h(ps: &[i128], qs: &[i128]) -> Vec<String> {
     let ps: Vec<f32> = ps.iter().map(|p| f32::from_bits(*p as u32)).collect();
     let qs: Vec<i16> = qs.iter().map(|q| *q as i16).collect();
@@ -218,6 +339,10 @@ where
 
 fn main() {
     serve(|line| {
+        let (line, opstr) = match line.find(';') {
+            Some(i) => (&line[..i], &line[i + 1..]),
+            None => (line, ""),
+        };
         let mut it = line.split_whitespace();
         let kind = it.next().unwrap_or("");
         let a: Vec<i128> = it.map(|t| t.parse::<i128>().expect("int token")).collect();
@@ -235,6 +360,28 @@ fn main() {
                     (1, 2) => dispatch::<[f64; 2]>(wk, bin, hop, maxn, data),
                     (2, 1) => dispatch::<[i16; 1]>(wk, bin, hop, maxn, data),
                     (2, 2) => dispatch::<[i16; 2]>(wk, bin, hop, maxn, data),
+                    _ => panic!("frame kind"),
+                }
+            }
+            "I" => {
+                let (wk, fk, nch) = (a[0], a[1], a[2]);
+                let (bin, hop, np) = (a[3] as usize, a[4] as usize, a[5] as usize);
+                let l = a[6] as usize;
+                let data = &a[7..];
+                assert_eq!(data.len(), l * nch as usize, "data length");
+                assert!(bin >= 1 && hop >= 1, "endless windower");
+                let ops: Vec<Vec<&str>> = opstr
+                    .split(',')
+                    .map(|o| o.split_whitespace().collect::<Vec<_>>())
+                    .filter(|o| !o.is_empty())
+                    .collect();
+                match (fk, nch) {
+                    (0, 1) => dispatch_i::<f32>(wk, bin, hop, np, data, &ops),
+                    (0, 2) => dispatch_i::<[f32; 2]>(wk, bin, hop, np, data, &ops),
+                    (1, 1) => dispatch_i::<f64>(wk, bin, hop, np, data, &ops),
+                    (1, 2) => dispatch_i::<[f64; 2]>(wk, bin, hop, np, data, &ops),
+                    (2, 1) => dispatch_i::<[i16; 1]>(wk, bin, hop, np, data, &ops),
+                    (2, 2) => dispatch_i::<[i16; 2]>(wk, bin, hop, np, data, &ops),
                     _ => panic!("frame kind"),
                 }
             }
